@@ -119,6 +119,28 @@ theorem strikeL_none (P : Nat → Bool) : ∀ cs : List T, strikeL P false false
   | c :: cs => by simp [strikeL, strike_none P c, strikeL_none P cs]
 end
 
+-- leaf flag off, internal flag on
+theorem dropFIL_isEmpty (P : Nat → Bool) : ∀ cs : List T, (dropFIL P cs).isEmpty = !someStaysFI P cs
+  | [] => rfl
+  | c :: cs => by
+      simp only [dropFIL, someStaysFI]
+      by_cases h : goneFI P c = true
+      · simp [h, dropFIL_isEmpty P cs]
+      · have h' : goneFI P c = false := by simpa using h
+        simp [h']
+
+mutual
+theorem strike_fi (P : Nat → Bool) : ∀ t : T, strike P false true t = if goneFI P t then none else some (dropFI P t)
+  | .node i x l s cs => by
+      simp only [strike, goneFI, dropFI, strikeL_fi P cs, dropFIL_isEmpty P cs]
+      by_cases hx : inP P x = true <;> by_cases hc : someStaysFI P cs = true <;> simp [hx, hc]
+theorem strikeL_fi (P : Nat → Bool) : ∀ cs : List T, strikeL P false true cs = dropFIL P cs
+  | [] => rfl
+  | c :: cs => by
+      simp only [strikeL, dropFIL, strike_fi P c, strikeL_fi P cs]
+      by_cases h : goneFI P c = true <;> simp [h]
+end
+
 -- default flags, as one recursive function that decides top-down with `allIn`
 mutual
 theorem strike_eq_sweep (P : Nat → Bool) : ∀ t : T, strike P true false t = sweep P t
